@@ -488,7 +488,18 @@ func GenIngressProgram(t *rapid.T, prof IngressProfile) *Program {
 		k := rapid.IntRange(0, 19).Draw(t, "kind")
 		switch {
 		case k < 13:
-			p.Steps = append(p.Steps, Step{Op: "ingress", Req: genReq(t, cur, prof)})
+			rq := genReq(t, cur, prof)
+			p.Steps = append(p.Steps, Step{Op: "ingress", Req: rq})
+			if prof.Race && rq.Sign != nil && rq.Sign.Replay == 0 && rapid.IntRange(0, 1499).Draw(t, "flood?") == 7 {
+				// other people's traffic in volume between a request and its replay
+				fl := *rq
+				p.Steps = append(p.Steps, Step{Op: "flood", Req: &fl, Batch: rapid.SampledFrom([]int{300, 1100, 4200}).Draw(t, "flood.n")})
+				again := *rq
+				sg := *rq.Sign
+				sg.Replay = 1
+				again.Sign = &sg
+				p.Steps = append(p.Steps, Step{Op: "ingress", Req: &again})
+			}
 		case k < 18 || !prof.Reload:
 			p.Steps = append(p.Steps, Step{Op: "advance", D: rapid.SampledFrom(advances).Draw(t, "d")})
 		default:
